@@ -9,7 +9,10 @@ T1 = ("Lean 4.33 kernel; axioms propext, Classical.choice, Quot.sound only (audi
       "sequence: return value, drop/release events, full collector snapshot, and in self-driven mode every counter and the exact debt "
       "are compared with the implementation built from /repo's working tree with --cfg gc_arena_verif); the monitors of "
       "harness/src/shadow.rs judge the implementation's trace independently; rustc's borrow/region checking and the global allocator are trusted; "
-      "the collector model is list-level (all = pre ++ rest); the pointer-level `next`/sweep_prev surgery is proved to refine it (Proofs/PtrRefine) and the mapping of the Rust statements onto both is validated by the snapshot comparison")
+      "the collector model is list-level (all = pre ++ rest); the pointer-level `next`/sweep_prev surgery is proved to refine it (Proofs/PtrRefine) and the mapping of the Rust statements onto both is validated by the snapshot comparison; "
+      "also trusted: Lean's compiler/runtime for the compiled model drivers (the correspondence runs the lean_exe, the theorems are about the same definitions), "
+      "the drivers' Parse/Show glue and lib/*.py, that the --cfg gc_arena_verif build behaves like the shipped one (read-only hooks: an event-log field, verif_step calls, snapshot accessors), "
+      "that user Collect impls report exactly the pointers they hold (C15/C16 for the provided ones), that payload destructors neither panic nor touch the arena (outside every quantifier, DESIGN 8), single-threaded execution")
 
 CHECKS = {
  "C01": dict(level="proof", tech="Lean 4 inductive invariant (inv_run) + differential correspondence",
@@ -19,9 +22,9 @@ CHECKS = {
    text="Proof: `exactness` (after two consecutive finish_cycle calls from ANY state satisfying the invariant, an allocation is undestructed iff it was strongly reachable — cycles of garbage included, nothing retained conservatively), `shells` (whatever else is still allocated is a value-less shell weakly held by the root or a reachable object), `shell_release` (a shell no reachable weak pointer refers to is released by the next full cycle), `reachable_survives`, per-colour sweep facts. Built on `Tight` (every marked object is justified by reachability when no mutator step intervened), `SameReach` (collector steps never change reachability) and the exit-state/termination theorems of the driver loop. Tie: T1 correspondence; monitor: finish_cycle x2 drop log = complement of shadow reachability; total_gc_count = reachable + weakly held shells.",
    ref="DESIGN §6 C02"),
  "C03": dict(level="proof", tech="Lean 4 (mutator_silent over all ops and states) + correspondence + call-graph table",
-   text="Proof: every mutator operation (everything but collection calls and drop) leaves the event log unchanged and keeps every allocation with its liveness, in every reachable state (C03.mutator_silent_run); held pointers stay valid; link is pure. Tie: T1 correspondence; monitor: no drop/release event bracketed by a callback.",
+   text="Proof for the model + partial for the code's call structure (translator's call resolution by name and rustc trusted): Proof: every mutator operation (everything but collection calls and drop) leaves the event log unchanged and keeps every allocation with its liveness, in every reachable state (C03.mutator_silent_run); held pointers stay valid; link is pure. Tie: T1 correspondence; monitor: no drop/release event bracketed by a callback.",
    ref="DESIGN §6 C03"),
- "C04": dict(level="proof", tech="Lean 4 log invariant over all histories + pointer-level list refinement + correspondence + allocator/drop-log monitors",
+ "C04": dict(note=T1 + "; panicking destructors are outside the quantifier (DESIGN 8): the DropAll resume-on-panic guard is not modelled", level="proof", tech="Lean 4 log invariant over all histories + pointer-level list refinement + correspondence + allocator/drop-log monitors",
    text="Proof: `once` (no id is destructed twice or released twice in any history), `released_is_gone`, `is_dropped_exact`, `drop_arena` (after arena drop in any phase every allocation ever made is released exactly once, destructed iff it had not been), `nothing_unaccounted`; and the pointer surgery on the intrusive all-list (`next` fields, all / sweep / sweep_prev in link, Mark->Sweep, sweep_one, DropAll) refines the list-level model: `list_surgery_link/sweep/enter_sweep/end_sweep`, `no_dangling_next`, `drop_visits_all`. Tie: T1 correspondence incl. the snapshot walk of the real list (order, cursor, sweep_prev) after every op; monitors: tracking allocator (every block released exactly once with its layout) + drop log.",
    ref="DESIGN §6 C04"),
  "C05": dict(level="proof", tech="Lean 4 (upgrade sound/complete/fails-only, query safety, is_dropped exact and stable) + correspondence",
@@ -37,19 +40,19 @@ CHECKS = {
    text="Proof: every_call_terminates (the driver loop terminates from every invariant state for every RunUntil/Stop/pacing/debt/fault position), finish_marking_some_iff (Some exactly when not Sweeping), finish_cycle_ends_sleeping, cycle_never_rewakes (nothing follows the Sweep->Sleep switch in one cycle_debt/finish_cycle call), asserts unreachable for every history; micro-step phase order; sweep only from fully marked; mark_debt/finish_marking are no-ops from Marked and from Sweeping; start_sweeping ends Sweeping; callbacks keep the phase. Tie: T1 self-driven (the model computes debt itself; step logs compared); protocol automaton monitor.",
    ref="DESIGN §6 C08"),
  "C09": dict(level="proof", tech="Lean 4 over exact rationals: counting invariant Acc over all histories, rho-bound, sleep, stop-the-world + self-driven correspondence + debt monitors",
-   text="Proof: collect_debt_zero, cycle_debt_zero_or_asleep, mark_debt_zero_or_marked (every debt-driven call returns with zero debt or at its stopping phase, from every state, any pacing/debt/fault); `acc_run` (counting invariant: the credit counters are bounded by colour counts in every reachable state) => credits_bounded, rho_bound / rho_bound_quotient (a cycle that woke in debt with H allocations is unfinished after cycle_debt only if fewer than rho*H/(1-rho) allocations were made since — for any rho-pacing, provided the arena is non-empty), cycles_complete; sleep_schedule (wakeup = max(min_sleep, sleep_factor x survivors)), sleep_honoured, stays_asleep (asleep with no carried debt: debt-driven calls are no-ops and debt reads 0 until allocations exceed the threshold, positive after). Stop-the-world: `stop_the_world` / `stop_the_world_any` (with all work factors zero, collect_debt / cycle_debt called with positive debt return only Sleeping — for every fault position) and `never_parked`; on the pinned tree this clause failed in one corner (defect D5, shown by the check with replay corpus/C09-stw-empty-arena.ops, repaired by /repo commit 73a575a). f64 rounding is modelled by exact rationals. Tie: T1/sd exact counter and debt correspondence on dyadic pacing; monitors (zero debt, no progress asleep, rho-bound, a collection call never increases debt).",
+   text="Proof: collect_debt_zero, cycle_debt_zero_or_asleep, mark_debt_zero_or_marked (every debt-driven call returns with zero debt or at its stopping phase, from every state, any pacing/debt/fault; mark_debt called while Sweeping does nothing at all and may return with debt — the documented `Stop::FullyMarked <= Stop::AtSweep` behaviour, third disjunct of the theorem); `acc_run` (counting invariant: the credit counters are bounded by colour counts in every reachable state) => credits_bounded, rho_bound / rho_bound_quotient (a cycle that woke in debt with H allocations is unfinished after cycle_debt only if fewer than rho*H/(1-rho) allocations were made since — for any rho-pacing, provided the arena is non-empty), cycles_complete; sleep_schedule (wakeup = max(min_sleep, sleep_factor x survivors)), sleep_honoured, stays_asleep (asleep with no carried debt: debt-driven calls are no-ops and debt reads 0 until allocations exceed the threshold, positive after). Stop-the-world: `stop_the_world` / `stop_the_world_any` (with all work factors zero, collect_debt / cycle_debt called with positive debt return only Sleeping — for every fault position) and `never_parked`; on the pinned tree this clause failed in one corner (defect D5, shown by the check with replay corpus/C09-stw-empty-arena.ops, repaired by /repo commit 73a575a). f64 rounding is modelled by exact rationals. Tie: T1/sd exact counter and debt correspondence on dyadic pacing; monitors (zero debt, no progress asleep, rho-bound, a collection call never increases debt).",
    ref="DESIGN §6 C09, §7"),
  "C10": dict(level="proof", tech="Lean 4 (debt algebra, count exact over all histories, monotonicity per op) + self-driven correspondence in debug and release",
-   text="Proof: debt non-negative, zero for an empty arena, adjust exact; count_exact / count_zero_after_drop (total_gc_count = allocations made and not yet released, in every history); no counter underflow is a component of Inv (inv_run); debt_never_decreased (no mutator operation other than the knobs and the forward-like barriers lowers allocation_debt, in ANY state, given trace_factor >= 0), plain_metrics, plain_ops, debt_forward_work (forward barriers / resurrect lower it by at most mark_factor per newly marked object: marking work performed by the barrier, DESIGN 8). Tie: exact comparison of every counter and of the debt (as exact rationals) after every op, in debug and release builds of the harness.",
+   text="One clause is read, not proved literally: forward_barrier / forward_barrier_weak / resurrect DO lower the debt (by at most mark_factor per newly marked object, theorem debt_forward_work) — the literal 'never decreased by write barriers' is false for these three on the unchanged tree and is recorded as a known finding (forward-like-barrier-pays-mark-credit); 'finite' is not addressed (exact rationals; non-finite f64 inputs are outside every quantifier). Proof: debt non-negative, zero for an empty arena, adjust exact; count_exact / count_zero_after_drop (total_gc_count = allocations made and not yet released, in every history); no counter underflow is a component of Inv (inv_run); debt_never_decreased (no mutator operation other than the knobs and the forward-like barriers lowers allocation_debt, in ANY state, given trace_factor >= 0), plain_metrics, plain_ops, debt_forward_work (forward barriers / resurrect lower it by at most mark_factor per newly marked object: marking work performed by the barrier, DESIGN 8). Tie: exact comparison of every counter and of the debt (as exact rationals) after every op, in debug and release builds of the harness.",
    ref="DESIGN §6 C10, §7 D1"),
- "C11": dict(level="proof", tech="Lean 4: fault steps are ops of inv_run + fault-injecting correspondence",
+ "C11": dict(note=T1 + "; the quantifier lists trace, callback and element-constructor panics — destructor panics are not covered (DESIGN 8)", level="proof", tech="Lean 4: fault steps are ops of inv_run + fault-injecting correspondence",
    text="Proof: trace faults (k-th trace call, after j slots, object or root) and callback panics are ordinary ops, so inv_run quantifies over every fault position in every schedule incl. repeated faults; mark_one_fault, root_fault_keeps_flag. Failed constructors / builders are C04 / C18. Tie: T1/od with a shared fault plan; C01–C05 monitors on the continued history.",
    ref="DESIGN §6 C11"),
  "C12": dict(level="proof", tech="Lean 4 table theorems over a BrandTable and a BrandFlow table regenerated from source + brand calculus + rustc probe corpus",
    text="Partial (rustc trusted): general lemmas (variance_inv_of_field, invariant_marker, not_send/not_sync_of_field, binder_closed, builders_invariant_in_value_type) proved for all tables; brand-flow calculus: `brand_flow_closed` (in every program over an OK table every held brand was introduced by a still-active callback and every result brand of a call is the brand of one of its inputs), `caller_cannot_choose`, `brand_dead_after_exit`; `table_ok` / variance / auto-trait table theorems re-checked by `decide` against the tables the translators regenerate from /repo on every run (82 signatures incl. the unsafe trait methods exported safe macros call); 648 + 134 adversarial compile probes cross-validate predictions (an accepted attack probe is run and is the failing input). The corpus is a sample of programs; soundness of rustc's region/trait checking, and the translator's brand-vs-borrow classification, are trusted.",
    ref="DESIGN §6 C12", engine="brand"),
  "C20": dict(level="proof", tech="Lean 4 (frame/projection, trivial in the model) + multi-arena correspondence",
-   text="Proof (trivial in the model, stated as such): frame, projection, inv_per_arena. The assurance about the code comes from the ties: multi-arena correspondence runs (2–3 arenas, interleaved incl. nested callbacks and dropping one mid-cycle; events attributed per arena; any foreign event is a C20 violation).",
+   text="Trivial in the model, partial in its tie (C20s: no statics / thread-locals in the translated source; rustc trusted): Proof (trivial in the model, stated as such): frame, projection, inv_per_arena. The assurance about the code comes from the ties: multi-arena correspondence runs (2–3 arenas, interleaved incl. nested callbacks and dropping one mid-cycle; events attributed per arena; any foreign event is a C20 violation).",
    ref="DESIGN §6 C20"),
 }
 
@@ -58,7 +61,7 @@ TS = ("Lean 4.33 kernel; axioms propext, Classical.choice, Quot.sound only; the 
 
 CHECKS.update({
  "C15": dict(level="proof", tech="Lean 4 model of the derive algorithm (structural induction) + generated-shape differential + rustc rejection probes", engine="collect",
-   text="Proof (of the modelled algorithm): exact / exact_through_trace / every_type_exact (the derived trace reports exactly the pointers of every well-typed value, for every declaration and nesting), needs_trace_exact / needs_trace_sound, one rejects_* theorem per listed misuse. Tie: the derive is a proc-macro, so the tie is differential — random #[derive(Collect)] declarations generated per run, traced with a recording Trace, compared with the model driver (derivemodel); 65 rejection probes compiled with rustc. Two literal deviations in type-level require_static mode are known findings.",
+   text="The derive algorithm is modelled by hand (not translated) and validated by the generated-shape differential; Proof (of the modelled algorithm): exact / exact_through_trace / every_type_exact (the derived trace reports exactly the pointers of every well-typed value, for every declaration and nesting), needs_trace_exact / needs_trace_sound, one rejects_* theorem per listed misuse. Tie: the derive is a proc-macro, so the tie is differential — random #[derive(Collect)] declarations generated per run, traced with a recording Trace, compared with the model driver (derivemodel); 65 rejection probes compiled with rustc. Two literal deviations in type-level require_static mode are known findings.",
    ref="DESIGN §6 C15", note=TS + "; the macro source is modelled by hand, not translated"),
  "C17": dict(level="proof", tech="Lean 4 arithmetic theorems over all sizes/alignments/lengths + allocator-level differential harness", engine="layout",
    text="Proof: 14 theorems, universally quantified over sizes, power-of-two alignments, lengths, block addresses, metadata kinds (value/header/meta aligned, disjoint, dealloc_same_layout, thin_fat_roundtrip, tag bits, stable …). Tie: harness_layout exercises the real crate over grids (33k cases quick) under a tracking allocator and compares requested/released layouts, offsets, tag words and std::alloc::Layout itself with the model driver (layoutmodel).",
@@ -78,10 +81,10 @@ CHECKS.update({
    text="Partial (rustc trusted): `covered` — for every table satisfying Table.ok every derivable Write capability / unlocked store is pointer-free or has all its holders barriered (so every accepted program's stores are guarded stores of the collector model, to which C01 applies); `table_ok` by `decide` on the table regenerated from /repo each run (DerefWrite receivers exclusive or 'static; every IndexWrite impl's index type closed: concrete, upstream-proved, or delegating to a closed receiver — `unsound_witness_client_index`, `mutant_witness`; marker traits unsafe; raw unlock sites barriered); `cells_static`; `unsound_witnesses`. 170+ probes (one per Write constructor / DerefWrite / IndexWrite / Unlock impl / field! misuse / Cell holding a Gc) compiled with rustc, accepted ones run. The pinned tree failed table_ok for &T, Rc<T>, Arc<T> (defects D2a/D2b, fixed).",
    ref="DESIGN §6 C13, §7", note=TT),
  "C16": dict(level="proof", tech="Lean 4 structural induction over type shapes for every complete CollectTable + recording-tracer differential", engine="tables+collect",
-   text="Proof: `exact` — for every complete table, every type shape and well-typed value, the provided trace reports exactly the contained pointers (strong as strong, weak as weak) in every parameter / element position and size, and NEEDS_TRACE = false implies no pointers; `table_complete` by `decide +kernel` on the 77-entry table regenerated from the macro-expanded crate each run; `needs_trace_mono`. Tie 2: harness_collect builds every provided container with distinct pointers in every position x size and records what Trace::trace reports (1029 cases quick, all features; per-feature builds in thorough), plus end-to-end survival runs.",
+   text="Partial in its tie (the CollectTable comes from a syn translator whose classification of std container shapes is trusted; rustc trusted): Proof: `exact` — for every complete table, every type shape and well-typed value, the provided trace reports exactly the contained pointers (strong as strong, weak as weak) in every parameter / element position and size, and NEEDS_TRACE = false implies no pointers; `table_complete` by `decide +kernel` on the 77-entry table regenerated from the macro-expanded crate each run; `needs_trace_mono`. Tie 2: harness_collect builds every provided container with distinct pointers in every position x size and records what Trace::trace reports (1029 cases quick, all features; per-feature builds in thorough), plus end-to-end survival runs.",
    ref="DESIGN §6 C16", note=TT + "; std / third-party iterators are trusted to visit every element"),
  "C19": dict(level="proof", tech="Lean 4: conversion-chain model (identity by induction over chains, metadata exactness, collector corollaries from inv_run / linv_run, ZstCache rule) + differential conversion harness; signature-table theorem (no conjuring) over a SigTable regenerated from source + rustc probes",
-   text="Dynamic half — proof: `same_object` / `from_alloc` (every well-typed chain of erase, erase_kind, cast, as_thin / as_fat, as_ptr / from_ptr, unsize!, downgrade / upgrade, stash-fetch, of any length, yields the same object and address), `fails_iff_dead_upgrade`, `upgrade_rule_is_collectors`, `metadata_exact` / `length_exact` / thin-fat round trips, `collector_view` + `converted_keeps_alive` / `converted_weak_block_stays` / `destructed_once` (corollaries of inv_run / linv_run: keeping the converted pointer keeps the value; destructed and released once), ZstCache: `zst_shared_iff`, `zst_alloc`, `zst_shared_alias`, `zst_value_destructed_once`, `zst_cached_ptr_aligned` (from C17's layout theorems). Tie: harness_conv executes every well-typed chain up to length 4 (random longer ones in thorough) over sized / array / slice / str / dyn / ZST targets x placement x schedule x phase x age against the real crate with ptr_eq, payload, survival, once-as-original-type and allocator monitors, compares with the model driver; ZstCache grid; rustc typing probes; Miri subset in thorough. Static half (partial, rustc + parametricity trusted): `no_conjure` by `decide` over the table of every safe public fn / macro whose result contains Gc<T>/GcWeak<T>, regenerated from /repo each run; `pinned_conjure_witness` (defect D3, fixed).",
+   text="Dynamic half — the identity theorems are immediate from how the conversion model is built (every step keeps (object, offset)); the assurance about the code comes from harness_conv; theorems: `same_object` / `from_alloc` (every well-typed chain of erase, erase_kind, cast, as_thin / as_fat, as_ptr / from_ptr, unsize!, downgrade / upgrade, stash-fetch, of any length, yields the same object and address), `fails_iff_dead_upgrade`, `upgrade_rule_is_collectors`, `metadata_exact` / `length_exact` / thin-fat round trips, `collector_view` + `converted_keeps_alive` / `converted_weak_block_stays` / `destructed_once` (corollaries of inv_run / linv_run: keeping the converted pointer keeps the value; destructed and released once), ZstCache: `zst_shared_iff`, `zst_alloc`, `zst_shared_alias`, `zst_value_destructed_once`, `zst_cached_ptr_aligned` (from C17's layout theorems). Tie: harness_conv executes every well-typed chain up to length 4 (random longer ones in thorough) over sized / array / slice / str / dyn / ZST targets x placement x schedule x phase x age against the real crate with ptr_eq, payload, survival, once-as-original-type and allocator monitors, compares with the model driver; ZstCache grid; rustc typing probes; Miri subset in thorough. Static half (partial, rustc + parametricity trusted): `no_conjure` by `decide` over the table of every safe public fn / macro whose result contains Gc<T>/GcWeak<T>, regenerated from /repo each run; `pinned_conjure_witness` (defect D3, fixed).",
    ref="DESIGN §6 C19, §7", engine="tables", note=TT),
 })
 
